@@ -15,7 +15,8 @@ bookkeeping after each transmission) and a packet source are `Burst` programs, t
 functions of `Net/Sched/WFQ.lean` (`WFQ.stampOf`; the virtual-time update is the same expression in the same operation order),
 which the replay of the LTS already compares bit for bit with Python.  This file holds the program, what statements about it
 are made with (observations, abstraction function, oracle, executable refinement check) and no proofs;
-`OnlVerif/Props/C14KWfqExamples.lean` evaluates concrete runs.
+`OnlVerif/Props/C14K.lean` proves that every run of this program is an admissible run of the LTS (refinement) and has the
+properties C12/C14 name, and evaluates concrete runs.
 
 ```python
 def put(self, packet):                                              def run(self, env):
@@ -57,7 +58,8 @@ Encoding (modelling devices, all of them):
   `heapq` compares `(finish, now)` as a tuple.  The program puts the integer `code(finish) · N + id`
   (`Kernel/StampCode.lean`): `code` is an order-preserving integer code of the scalar (at `Float` the bit pattern of the
   non-negative double; at `ℚ` the floor of `scale · finish`, which preserves `<` on the grid `ℤ/scale` — every finite rational
-  workload lives on such a grid for a suitable `scale`).  The second key component `now` is carried by the packet id: one
+  workload with whole weights lives on such a grid for a suitable `scale`: `WFQK.GridOK`, `C14K.wfq_grid_exists`; that virtual time
+  and the finish times stay on it although `update_vtime` divides by the weight sum is part of the proved invariant).  The second key component `now` is carried by the packet id: one
   source hands the packets over in id order, so `now` is non-decreasing in the id and `(finish, now)` and `(finish, id)` order
   every pair of items the same way unless stamp *and* instant are equal — for those `heapq`'s choice depends on the heap layout
   (outside every model of this tree; the LTS accepts either) and the program takes the earlier arrival.  `item.item` is the
@@ -86,9 +88,9 @@ Encoding (modelling devices, all of them):
   `store.get()` the clock equals the attribute `last_time`: every `put` and every pass of the loop ends with
   `last_time = now`, and the `get` is served in the instant of a `put` or of the loop's own `get` call.  `run` therefore reads
   the `last_time` cell at that point — a **ghost read** (no Python statement reads the attribute there; that it equals
-  `env.now` at that point is to be part of the proved invariant) — and carries `t + 8·size/rate` (the kernel's own expression
+  `env.now` at that point is part of the proved invariant: `AInv.run`, phase `H`, in `Lemmas/WFQKDefs.lean`) — and carries `t + 8·size/rate` (the kernel's own expression
   `now + delay` for the timeout of the sender it spawns in that instant) in its local state `.runSend id wake` as the instant it
-  resumes at.  That these carried instants are `env.now` whenever the generator runs is to be part of the proved invariant; the
+  resumes at.  That these carried instants are `env.now` whenever the generator runs is part of the proved invariant (`RunEv` / `SrcEv`); the
   observations record the kernel's own clock, and `refineCheck` below checks it on concrete runs (the LTS books the
   transmission end with *its* clock);
 * observations (each recorded with `env.now` in `KState.trace`): the call of `put` is `log "put" (int id)`; the virtual time
@@ -679,7 +681,7 @@ def arrivalsFrom (t : τ) : List (τ × Int) → List (Int × τ)
   | [] => []
   | (gap, id) :: r => (id, t + gap) :: arrivalsFrom (t + gap) r
 
-/-! ## label inference and an executable refinement check (used by the `example`s of `Props/C14KWfqExamples.lean`)
+/-! ## label inference and an executable refinement check (used by the `example`s of `Props/C14K.lean`)
 
 The functions below *compute* the LTS action sequence of a kernel step from the abstractions of the two states (as
 `harness/stamp.py` does from the public attributes of the real scheduler) and replay it through the LTS
